@@ -1,6 +1,7 @@
 package main
 
 import (
+	"go/token"
 	"os"
 	"fmt"
 	"go/ast"
@@ -18,10 +19,23 @@ func (e *Enc) baseEnv(f *frame, st *State) *SpecEnv {
 	for i, p := range f.fn.Params {
 		env.params[p.Name()] = f.params[i]
 	}
-	for i, fv := range f.fn.FreeVars {
-		if i < len(f.params)-len(f.fn.Params) {
-			_ = fv
+	// captured variables by name: the value the cell holds now
+	for _, fv := range f.fn.FreeVars {
+		cell, ok := f.vals[fv]
+		pt, isPtr := fv.Type().(*types.Pointer)
+		if !ok || !isPtr || cell.Sh.K != KInt {
+			continue
 		}
+		func() {
+			mode := e.saveMode()
+			defer func() {
+				if r := recover(); r != nil {
+					e.restoreMode(mode)
+				}
+			}()
+			loc := &Loc{Base: cell.T, Path: pathForType(pt.Elem()), Sh: shapeOf(pt.Elem())}
+			env.params[fv.Name()] = e.load(st, loc)
+		}()
 	}
 	return env
 }
@@ -245,6 +259,13 @@ func (e *Enc) loopHead(f *frame, li *loopInfo, st *State) {
 	for _, phi := range phis {
 		if phi.Comment == "rangeindex" && isRangeIndexPhi(phi) {
 			e.assume(fmt.Sprintf("(and (<= (- 1) %s) (< %s 281474976710656))", f.vals[phi].T, f.vals[phi].T))
+		}
+	}
+	// counted loops "for i := c; i < x; i++": i never drops below its start value (the guard
+	// i < x keeps the increment from overflowing)
+	for _, phi := range phis {
+		if c, ok := countedLoopStart(phi, b); ok {
+			e.assume(fmt.Sprintf("(<= %d %s)", c, f.vals[phi].T))
 		}
 	}
 	// loop-carried slices that can only refer to backing arrays allocated by this activation
@@ -608,4 +629,42 @@ func clauseTag(c *Clause, kind string, k int) string {
 		return c.Label
 	}
 	return fmt.Sprintf("%s%d", kind, k)
+}
+
+// countedLoopStart: phi = [c, phi+1, ...] at a loop head whose condition is
+// "phi < x": returns c.
+func countedLoopStart(phi *ssa.Phi, head *ssa.BasicBlock) (int64, bool) {
+	if bt, ok := phi.Type().Underlying().(*types.Basic); !ok || bt.Info()&types.IsInteger == 0 {
+		return 0, false
+	}
+	var start int64
+	haveStart := false
+	for _, ed := range phi.Edges {
+		if c, ok := ed.(*ssa.Const); ok {
+			if haveStart && c.Int64() != start {
+				return 0, false
+			}
+			start, haveStart = c.Int64(), true
+			continue
+		}
+		b, ok := ed.(*ssa.BinOp)
+		if !ok || b.Op != token.ADD || b.X != ssa.Value(phi) {
+			return 0, false
+		}
+		if c, ok := b.Y.(*ssa.Const); !ok || c.Int64() != 1 {
+			return 0, false
+		}
+	}
+	if !haveStart || len(head.Instrs) == 0 {
+		return 0, false
+	}
+	ifi, ok := head.Instrs[len(head.Instrs)-1].(*ssa.If)
+	if !ok {
+		return 0, false
+	}
+	cond, ok := ifi.Cond.(*ssa.BinOp)
+	if !ok || cond.Op != token.LSS || cond.X != ssa.Value(phi) {
+		return 0, false
+	}
+	return start, true
 }
